@@ -14,14 +14,21 @@ import (
 var c09IDs = []string{"a", "b", "c", "d", "e"}
 var c09Types = []sbom.Edge_Type{sbom.Edge_contains, sbom.Edge_dependsOn}
 
-// c09Universe picks the identifier universe and edge types of a case: three quarters use plain letters and two edge
-// types; one quarter uses identifiers and type numbers that glue together alike ("a1"+"1" == "a"+"11",
+// c09Universe picks the identifier universe and edge types of a case: half use plain letters and two edge types, one
+// quarter identifiers that contain a separator character, and one quarter uses identifiers and type numbers that glue together alike ("a1"+"1" == "a"+"11",
 // "a1"+"12" == "a11"+"2"), on which keys built by concatenating source, type and target collide.
 func c09Universe(k int) string {
 	if (k/2)%4 == 1 {
 		c09IDs = []string{"a", "a1", "a11", "1", "11"}
 		c09Types = []sbom.Edge_Type{1, 2, 11, 12}
 		return "universe:identifiers-and-type-numbers-that-concatenate-alike"
+	}
+	if (k/2)%4 == 3 {
+		// identifiers that contain a separator character: "a"+sep+"b<sep>c" == "a<sep>b"+sep+"c"
+		sep := []string{":", "/", "-", "|", ",", ".", "+", " ", "->", "_"}[(k/8)%10]
+		c09IDs = []string{"a", "a" + sep + "b", "b", "b" + sep + "c", "c"}
+		c09Types = []sbom.Edge_Type{sbom.Edge_contains, sbom.Edge_dependsOn}
+		return "universe:identifiers-containing-a-separator-character"
 	}
 	c09IDs = []string{"a", "b", "c", "d", "e"}
 	c09Types = []sbom.Edge_Type{sbom.Edge_contains, sbom.Edge_dependsOn}
